@@ -18,6 +18,10 @@ CHECKS = {
    text="Readers fed the same change set through shuffled orders, batchings, duplicates and every ingestion path must project identical documents (heads, value sets, winners, order, counters, text); design-level order independence is model checked.", ref="§6 C01"),
  "C02": dict(cat="model_checking", tech="TLA+ trace validation (TLC, Trace_Interp: view = OpSet!Interp of the decoded ops) + exhaustive transition-coverage replay of Doc.tla behaviours into the implementation",
    text="After every event the projected document must equal the TLA+ interpretation (multi-value registers, Lamport winner, RGA order, counter sums) of the ops decoded from the replica's own changes; in the other direction every (state, transition) pair of the bounded Doc.tla model (2-3 replicas, puts/deletes/increments/inserts/merges on a conflicted register and list) is replayed and compared step by step.", ref="§6 C02"),
+ "C03": dict(cat="model_checking", tech="TLA+ trace validation (TLC, Trace_Seq: After = SeqSpec(Before, call) on views read through the open transaction) + TLC-checked LocalEffect invariant of Doc.tla with replay",
+   text="Every call of every transaction in seeded programs (valid, boundary and invalid arguments on maps, lists, text with conflicts/counters/nesting) must transform the logged view exactly as the sequential specification says, leave all other objects unchanged, fail exactly for invalid arguments without changing anything, and the committed view must equal the last in-transaction view. The op-generation rules of Doc.tla are checked by TLC to realise the documented effect on every reachable state (LocalEffect) and the behaviours are replayed.", ref="§6 C03"),
+ "C07": dict(cat="model_checking", tech="Exhaustive state-coverage replay of Doc.tla with Interp at every antichain of heads + TLA+ trace validation (Trace_Interp ReadAt) of random histories",
+   text="For every reachable state of the bounded Doc.tla model TLC enumerates all antichains H of the acting replica's changes and the view Interp(ops of ancestors(H)); the harness issues the reads at H and fork_at(H) on the real document and compares. Random conflict-rich histories are validated the other way round (logged reads at single and concurrent heads must equal the interpretation of the ancestors' decoded ops; fork_at heads/changes/view).", ref="§6 C07"),
 }
 
 NA_REASON = "check not built yet in this session (framework under construction; see DESIGN.md §10 build order)"
